@@ -5,11 +5,12 @@ R = os.path.dirname(os.path.abspath(__file__))
 src = json.load(open(os.path.join(R, 'harness', 'manifest_src.json')))
 props = [json.loads(l)['id'] for l in open(os.path.join(R, 'properties.jsonl'))]
 base = json.load(open('/root/.vp/BASELINE.json'))['cmd'] if os.path.exists('/root/.vp/BASELINE.json') else src['baseline_cmd']
+rel = set(open(os.path.join(R, 'harness', 'released.txt')).read().split())
 checks, na = [], []
 for p in props:
     f = os.path.join(R, 'harness', 'manifest', p + '.json')
     c = json.load(open(f)) if os.path.exists(f) else None
-    if c and c.get('claimed', True):
+    if c and c.get('claimed', True) and p in rel:
         checks.append(dict(property_id=p, quick_cmd='./check %s --tier quick' % p, thorough_cmd='./check %s --tier thorough' % p,
                            evidence_file='evidence/%s.json' % p, replay_cmd_template='./check %s --replay {path}' % p,
                            engine='coq-models+extracted-driver+harness',
